@@ -26,6 +26,7 @@ type SpecEnv struct {
 	pkg   *types.Package
 	at    *ssa.BasicBlock // program point for local name resolution
 	inOld bool
+	tolerant bool
 	fn    *ssa.Function // function whose names are in scope (may be nil)
 	qn    int
 }
@@ -604,6 +605,10 @@ func (env *SpecEnv) binary(x EBinary) (SVal, error) {
 	}
 	b, err := env.eval(x.Y)
 	if err != nil {
+		if x.Op == "==>" && env.tolerant && a.T.Sort == SBool && strings.Contains(err.Error(), "unknown name") {
+			// names that do not exist at this exit: the antecedent must be false here
+			return SVal{T: Term{not(a.T.S), SBool}}, nil
+		}
 		return SVal{}, err
 	}
 	boolOp := func(f func(a, b string) string) (SVal, error) {
